@@ -123,8 +123,44 @@ func (c12) Exec(seed int64, i int, tier string) Record {
 
 	logP, logA := &c12Log{}, &c12Log{}
 	cfgP, cfgA := c12RecConfig(false, logP), c12RecConfig(true, logA)
-	fP, outP := SafeParse(text, &cfgP)
-	fA, outA := SafeParse(text, &cfgA)
+	// class config:copied (30%): ONE Config gets all its functions, is copied by value (`c2 := c1`), and
+	// SetAccessorMode is called on one side only (the copy or the original), before or after the other side
+	// was used for Parse. The side without the call is the plain mode. (The copies share the function tables —
+	// Go maps — so both sides log into logA; the calls of the plain evaluation are moved to logP below.)
+	copied := r.Chance(30)
+	var fP, fA Parsed
+	var outP, outA Outcome
+	if copied {
+		c1 := c12RecConfig(false, logA)
+		c2 := c1
+		onCopy, plainFirst := r.Chance(50), r.Chance(50)
+		if plainFirst {
+			if onCopy {
+				fP, outP = SafeParse(text, &c1)
+				c2.SetAccessorMode()
+				fA, outA = SafeParse(text, &c2)
+			} else {
+				fP, outP = SafeParse(text, &c2)
+				c1.SetAccessorMode()
+				fA, outA = SafeParse(text, &c1)
+			}
+		} else {
+			if onCopy {
+				c2.SetAccessorMode()
+				fA, outA = SafeParse(text, &c2)
+				fP, outP = SafeParse(text, &c1)
+			} else {
+				c1.SetAccessorMode()
+				fA, outA = SafeParse(text, &c1)
+				fP, outP = SafeParse(text, &c2)
+			}
+		}
+		rec.Tags = append(rec.Tags, "config:copied", fmt.Sprintf("config:copied/acc-on-copy=%v/plain-parsed-first=%v", onCopy, plainFirst))
+		rec.Info["config"] = fmt.Sprintf("c1 := all functions; c2 := c1; SetAccessorMode on the copy: %v; the plain side parsed first: %v", onCopy, plainFirst)
+	} else {
+		fP, outP = SafeParse(text, &cfgP)
+		fA, outA = SafeParse(text, &cfgA)
+	}
 	if fP == nil || fA == nil {
 		if fP == nil && fA == nil && outP.ErrKind == outA.ErrKind && outP.Msg == outA.Msg && !c12Abnormal(outP) {
 			rec.Viol = "generated path was rejected by Parse: " + outP.Msg
@@ -137,6 +173,9 @@ func (c12) Exec(seed int64, i int, tier string) Record {
 	}
 	docP, docA := DeepCopy(doc), DeepCopy(doc)
 	outP = SafeCall(fP, docP)
+	if copied {
+		logP.Calls, logA.Calls = logA.Calls, nil
+	}
 	outA = SafeCall(fA, docA)
 	if c12Abnormal(outP) || c12Abnormal(outA) {
 		rec.Viol = "abnormal outcome: plain " + clip(outP.Detail(), 500) + " / accessor " + clip(outA.Detail(), 500)
@@ -166,6 +205,14 @@ func (c12) Exec(seed int64, i int, tier string) Record {
 		rec.Tags = append(rec.Tags, "calls:some")
 	}
 
+	if outP.OK {
+		for k, v := range outP.Vals {
+			if c12IsAcc(v) {
+				fail("plain-accessor", fmt.Sprintf("result %d of the evaluation WITHOUT accessor mode is a jsonpath.Accessor (%v)", k, rec.Info["config"]))
+				break
+			}
+		}
+	}
 	// 1. outcome parity
 	switch {
 	case outP.OK != outA.OK:
